@@ -9,7 +9,8 @@
      find_matches / match_v1         Model/Rebuild.v (see Props/C13.v); `copies`/`trace` are the
                                      copypath calls in execution order as (candidate location, path
                                      relative to the destination)
-   Every filesystem change of a v1 rebuild is made by one of the copypath calls in `trace`. *)
+   Every filesystem change of a v1 rebuild is made by one of the copypath calls in `trace`.
+   The last part states the same for the v2 route: match_v2 / verified of Model/RebuildMeta.v (see Props/C13.v). *)
 From Coq Require Import List String.
 From TF Require Import Lib.Base Model.Rebuild Model.CopyPath Proofs.CopyPathProofs Proofs.RebuildMatch.
 Import ListNotations.
@@ -109,3 +110,38 @@ Theorem C14_copies_are_candidates : forall (H1 : bytes -> bytes) (fm : filemap)
     In (piece, paths) nodes /\ In pn paths /\ full = pn_full pn /\ l = fst c /\ is_candidate fm pn c.
 Proof. exact match_v1_copies_are_candidates. Qed.
 Print Assumptions C14_copies_are_candidates.
+
+(* ---------------------------------------------------------------------------------------------- *)
+(* which copypath calls a v2 / hybrid rebuild makes                                               *)
+(* ---------------------------------------------------------------------------------------------- *)
+From TF Require Import Model.Bencode Spec.Bep52 Model.RebuildMeta Proofs.RebuildMetaProofs.
+
+(* only verified copies: every copypath call copies a search-directory file that is indexed under the entry's file
+   name, has EXACTLY the recorded length and whose BEP 52 pieces root (of its whole content) is the recorded root,
+   to the path the metafile assigns to that entry *)
+Theorem C14_v2_only_verified_copies : forall (H256 : bytes -> bytes) B, 0 < B -> forall k pl, pl = B * 2 ^ k ->
+  forall (fm : filemap) (entries : list entry) (l : loc) (full : string),
+  In (l, full) (fst (match_v2 H256 B pl fm entries)) ->
+  exists e cands content,
+    In e entries /\ full = full_text e /\
+    fm_lookup fm (text (e_filename e)) = Some cands /\ In (l, content) cands /\ verified H256 B e (l, content).
+Proof. exact match_v2_sound. Qed.
+Print Assumptions C14_v2_only_verified_copies.
+
+(* a candidate of any other size -- shorter, or longer with the genuine bytes first -- never verifies *)
+Theorem C14_v2_other_size_never_placed : forall (H256 : bytes -> bytes) B (e : entry) (c : candidate),
+  Z.of_nat (length (snd c)) <> e_length e -> ~ verified H256 B e c.
+Proof. exact other_size_never_verifies. Qed.
+Print Assumptions C14_v2_other_size_never_placed.
+
+(* at most one copypath call per entry, and the number of files counted is the number of copypath calls *)
+Theorem C14_v2_one_copy_per_entry : forall (H256 : bytes -> bytes) B, 0 < B -> forall k pl, pl = B * 2 ^ k ->
+  forall (fm : filemap) (e : entry), length (v2_entry H256 B pl fm e) <= 1.
+Proof. exact v2_entry_at_most_one. Qed.
+Print Assumptions C14_v2_one_copy_per_entry.
+
+Theorem C14_v2_counted_are_copied : forall (H256 : bytes -> bytes) B pl (fm : filemap) (entries : list entry),
+  fst (match_v2 H256 B pl fm entries) = concat (map (v2_entry H256 B pl fm) entries) /\
+  snd (match_v2 H256 B pl fm entries) = length (fst (match_v2 H256 B pl fm entries)).
+Proof. exact match_v2_is_concat. Qed.
+Print Assumptions C14_v2_counted_are_copied.
